@@ -501,6 +501,23 @@ func (e rfEngine) Exec(ci interface{}, st *Stats) (*Violation, interface{}, bool
 			}
 			st.Probe("parsefunction_body_accepted")
 		}
+		// a parameter text is a parameter list on its own: it cannot lend a comment
+		// to the wrapper so that an ill-formed body goes through
+		for _, inj := range [][2]string{{string(prefix) + " //", "){ return 1"}, {string(prefix) + " /*", "*/){ return 1"}, {"a //", string(prefix) + "\n){ return 1"}} {
+			if n%8 != 0 {
+				break // every eighth cut point
+			}
+			fn, ferr, fp := doParseFunction(inj[0], inj[1])
+			if fp != "" {
+				return fail("parse_panic", "parse-panic", rc, "ParseFunction(%q, %q) panicked: %s", clip(inj[0]), clip(inj[1]), fp)
+			}
+			if ferr == "" && fn != nil {
+				body := doParse("(function(){\n" + inj[1] + "\n})")
+				if body.errStr != "" {
+					return fail("parsefunction_accepts_rejected_body", "", rc, "ParseFunction(%q, %q) returns a function although the body alone is rejected (%s): the parameter text comments the wrapper out", clip(inj[0]), clip(inj[1]), clip(body.errStr))
+				}
+			}
+		}
 		if _, _, fp := doParseFunction(string(prefix), "return 1"); fp != "" {
 			return fail("parse_panic", "parse-panic", rc, "ParseFunction panicked with the %d-byte prefix as parameter list: %s", n, fp)
 		}
